@@ -75,7 +75,7 @@ def gen_reloc(rng):
 
 
 def gen_product(rng, name, version, flavor, idx):
-    dk = rng.choice(["inside", "inside", "inside_odd", "outside", "sibling", "none"])
+    dk = rng.choice(["inside", "inside", "inside_odd", "outside", "sibling", "none", "otherstack"])
     tag = "%s-%d" % (name, idx)            # keeps locations of different declarations apart
     if dk == "inside":
         d = {"kind": "inside", "rel": "%s/%s/%s" % (flavor, name, version)}
@@ -85,6 +85,10 @@ def gen_product(rng, name, version, flavor, idx):
         d = {"kind": "outside", "path": "elsewhere/%s" % tag}
     elif dk == "sibling":
         d = {"kind": "outside", "path": "@SIBLING/%s" % tag}
+    elif dk == "otherstack":
+        # installed in ANOTHER stack of EUPS_PATH, declared into this one (explicit eupsPathDir): the record is written to
+        # this stack's database and must be canonicalised against THIS stack - the directory stays absolute
+        d = {"kind": "outside", "path": "@OTHER/%s/%s" % (flavor, tag)}
     else:
         d = {"kind": "none"}
     kinds = ["ups", "ups", "in_dir", "abs_inside", "abs_db2", "abs_outside", "abs_sibling", "interned", "none"]
@@ -120,7 +124,7 @@ def gen_product(rng, name, version, flavor, idx):
 
 def _p(R, stackname, rel):
     """Scratch-relative description → absolute path (@SIBLING = the directory whose name is stack + '2')."""
-    return os.path.join(R, rel.replace("@SIBLING", stackname + "2"))
+    return os.path.join(R, rel.replace("@SIBLING", stackname + "2").replace("@OTHER", stackname + "-o"))
 
 
 def want_dir(p, root, R, stackname):
@@ -166,7 +170,10 @@ def _child_declare(R, stack, p, cwd, dirpath, tablearg, clock0):
     D._Database.declare = wrapped
     e = common.new_eups(flavor=p["flavor"])
     tf = io.StringIO(tablearg[7:]) if isinstance(tablearg, str) and tablearg.startswith("STREAM:") else tablearg
-    e.declare(p["name"], p["version"], dirpath, tablefile=tf)
+    if "@OTHER" in p["dir"].get("path", ""):
+        e.declare(p["name"], p["version"], dirpath, tablefile=tf, eupsPathDir=stack)
+    else:
+        e.declare(p["name"], p["version"], dirpath, tablefile=tf)
     return captured.get("prod"), clock.n
 
 
@@ -218,6 +225,10 @@ def run_reloc(case):
             f.write(common.STARTUP % {"tags": "'beta'"})
         os.environ["EUPS_PATH"] = stack
         os.environ["EUPS_USERDATA"] = R + "/userdataA"
+        other = stack + "-o"
+        if any("@OTHER" in p["dir"].get("path", "") for p in case["products"]):
+            os.makedirs(other + "/ups_db")
+            os.environ["EUPS_PATH"] = stack + ":" + other          # two stacks while declaring; the readers see the first only
         obs = {"R": R, "stack": stack, "real": real, "decl": [], "vfiles": {}}
         fl = bool(link)
         clock = 0
@@ -339,7 +350,10 @@ def check_reloc(ctx, case, obs):
     declared_ok = 0
     for rec in obs["decl"]:
         p = case["products"][rec["i"]]
-        ctx.hist("dir=%s/table=%s" % (p["dir"]["kind"] + ("~" if "@SIBLING" in p["dir"].get("path", "") else ""),
+        if "@OTHER" in p["dir"].get("path", "") and rec["status"] == "ok":
+            ctx.hist("declared-into-another-stack")
+        ctx.hist("dir=%s/table=%s" % (p["dir"]["kind"] + ("~" if "@SIBLING" in p["dir"].get("path", "") else "") +
+                                      ("@other" if "@OTHER" in p["dir"].get("path", "") else ""),
                                       _tkind(p)))
         ctx.hist("cwd=" + p["cwd"])
         ctx.hist("stack=" + (case.get("link") or "plain"))
@@ -919,7 +933,8 @@ def check_hand(ctx, case, obs):
 # ================================================================================================
 
 DB_FLAVORS = ["Linux", "Linux64", "generic"]
-DB_TAGS = ["current", "beta"]
+DB_TAGS = ["current", "beta", "rc-1", "v1.2", "2024.10", "beta+1"]      # tag names with non-word characters too
+DB_ODD_TAGS = [t for t in DB_TAGS if not t.replace("_", "a").isalnum()]
 DB_VERSIONS = ["1.0", "2.0"]
 
 
@@ -1084,6 +1099,23 @@ def _child_dblive(R, stack, case, clock0):
             out["versions"] = sorted(db.findVersions(name))
         except Exception as ex:  # noqa
             out["versions"] = "EXC:" + lib_records.exc_name(ex)
+        try:      # a reader that scans the directory for chain files
+            out["assignments"] = sorted([str(t), v, f] for t, v, f in db.getTagAssignments(name)) if os.path.isdir(pdir) else []
+        except Exception as ex:  # noqa
+            out["assignments"] = "EXC:" + lib_records.exc_name(ex)
+        return out
+
+    def eups_view():
+        """Eups-level readers in this process after the history: findProducts and the (lazy) tags of each product."""
+        out = {}
+        for f in case["flavors"]:
+            try:
+                e = common.new_eups(flavor=f)
+                for q in e.findProducts(name):
+                    if q.flavor == f:
+                        out["%s/%s" % (q.version, f)] = sorted(set(str(t) for t in q.tags))
+            except Exception as ex:  # noqa
+                out["EXC/" + f] = lib_records.exc_name(ex)
         return out
     first = answers()
     steps = []
@@ -1110,7 +1142,7 @@ def _child_dblive(R, stack, case, clock0):
             err = lib_records.exc_name(e)
         steps.append({"before": before, "after": _dir_texts(pdir), "clock0": c0, "err": err, "prod": prod, "ex": ex,
                       "answers": answers()})
-    return {"first": first, "steps": steps}
+    return {"first": first, "steps": steps, "eups_view": eups_view()}
 
 
 def run_dbops(case):
@@ -1120,7 +1152,7 @@ def run_dbops(case):
         for d in (stack + "/ups_db", R + "/cwd", R + "/userdataA"):
             os.makedirs(d)
         with open(R + "/userdataA/startup.py", "w") as f:
-            f.write(common.STARTUP % {"tags": "'beta'"})
+            f.write(common.STARTUP % {"tags": ", ".join(repr(t) for t in DB_TAGS if t != "current")})
         os.environ["EUPS_PATH"] = stack
         os.environ["EUPS_USERDATA"] = R + "/userdataA"
         r = common.in_child(_child_dbsetup, stack, case)
@@ -1137,6 +1169,7 @@ def run_dbops(case):
                 if r[0] != "ok":
                     return {"setup": "live child: " + str(r[:3])}
                 obs["first"] = r[1]["first"]
+                obs["eups_view"] = r[1]["eups_view"]
                 for st in r[1]["steps"]:
                     st["bb"] = {fn: _blocks(fn, t) for fn, t in st["before"].items()}
                     st["ba"] = {fn: _blocks(fn, t) for fn, t in st["after"].items()}
@@ -1212,6 +1245,17 @@ def check_dbops(ctx, case, obs):
                 hit = True
         if hit:
             ctx.hist("dbops-live:undeclare-one-flavor-then-declare-same-version")
+    if case.get("live") and obs["steps"] and "eups_view" in obs:
+        last = obs["steps"][-1]["ba"]
+        want = {}
+        for fn, b in last.items():
+            if fn.endswith(".version"):
+                for fq in b:
+                    want["%s/%s" % (fn[:-8], fq)] = sorted(c[:-6] for c, cb in last.items() if c.endswith(".chain")
+                                                          and isinstance(cb.get(fq, (None,))[0], dict) and cb[fq][0].get("version") == fn[:-8])
+        if obs["eups_view"] != want:
+            ctx.fail("scanning_readers_agree_with_disk", {**case, "step": len(obs["steps"]) - 1}, obs["eups_view"], None,
+                     note="after the history findProducts + product.tags report %r, the records on disk say %r" % (obs["eups_view"], want))
     for i, (op, st) in enumerate(zip(case["ops"], obs["steps"])):
         ctx.hist("dbop=%s%s" % (op["kind"], "/skipped" if st.get("skipped") else ""))
         if st.get("skipped"):
@@ -1242,7 +1286,17 @@ def check_dbops(ctx, case, obs):
         # oracle (ii), live histories: what the one long-lived Database object answers = what is on disk now
         if case.get("live"):
             disk = {"%s/%s" % (fn[:-8], fq): True for fn, b in st["ba"].items() if fn.endswith(".version") for fq in b}
+            disk_assign = sorted([fn[:-6], b[fq][0].get("version"), fq] for fn, b in st["ba"].items() if fn.endswith(".chain")
+                                 for fq in b if isinstance(b[fq][0], dict))
+            for t_, _, _ in disk_assign:
+                if t_ in DB_ODD_TAGS:
+                    ctx.hist("dbops-live:odd-tag-chain-read-back")
             for key, ans in sorted(st["answers"].items()):
+                if key == "assignments":
+                    if ans != disk_assign:
+                        ctx.fail("scanning_readers_agree_with_disk", inp, st["answers"], None,
+                                 note="getTagAssignments answers %r, the chain records on disk say %r" % (ans, disk_assign))
+                    continue
                 if key == "versions":
                     want = sorted({fn[:-8] for fn in st["ba"] if fn.endswith(".version")})
                     if ans != want:
@@ -1384,6 +1438,12 @@ def run(ctx):
     if done_l >= 60 and ctx.histogram.get("dbops-live:undeclare-one-flavor-then-declare-same-version", 0) < 3:
         raise common.InfraError("degenerate distribution: only %d live-object histories with undeclare-then-declare of one version"
                                 % ctx.histogram.get("dbops-live:undeclare-one-flavor-then-declare-same-version", 0))
+    if done_l >= 60 and ctx.histogram.get("declared-into-another-stack", 0) < 10:
+        raise common.InfraError("degenerate distribution: only %d products of another stack declared into the recording stack"
+                                % ctx.histogram.get("declared-into-another-stack", 0))
+    if done_l >= 60 and ctx.histogram.get("dbops-live:odd-tag-chain-read-back", 0) < 10:
+        raise common.InfraError("degenerate distribution: only %d chain records of tags with non-word characters read back"
+                                % ctx.histogram.get("dbops-live:odd-tag-chain-read-back", 0))
     if done_l >= 60 and min(ctx.histogram.get("stack=link", 0), ctx.histogram.get("stack=link_real_args", 0)) < done_l // 4:
         raise common.InfraError("degenerate distribution: symlinked stacks: %d / %d declarations of %d stacks"
                                 % (ctx.histogram.get("stack=link", 0), ctx.histogram.get("stack=link_real_args", 0), done_l))
